@@ -66,6 +66,11 @@ class Defs:
                     self.whole[d["l"]].append((bi, "t", t))
                 else:
                     self.partial[d["l"]].append((bi, "t", t))
+        # a `mut` parameter that is reassigned in the body has its argument as the first of several definitions
+        # (a read after `i = i + 4` must not see the guard that was checked on the argument)
+        for l in range(1, min(body.argc, n - 1) + 1):
+            if self.whole[l]:
+                self.whole[l].insert(0, (0, -1, {"k": "use", "o": {"k": "param_init", "l": l}}))
 
 
 class Terms:
@@ -96,7 +101,7 @@ class Terms:
     def local(self, l):
         if l in self._memo:
             return self._memo[l]
-        if l >= 1 and l <= self.body.argc:
+        if l >= 1 and l <= self.body.argc and not self.defs.whole[l]:
             t = ("param", l)
             self._memo[l] = t
             return t
@@ -194,6 +199,8 @@ class Terms:
         k = o["k"]
         if k in ("copy", "move"):
             return self.place(o["p"])
+        if k == "param_init":
+            return ("param", o["l"])
         if k == "const":
             if "fn" in o:
                 return ("fn", o.get("fn_resolved") or o["fn"])
